@@ -33,7 +33,9 @@
 //!   rounding the shard's graph to whole segments; when there are several
 //!   shards `k = 2`: the second segment pays for the builder's documented
 //!   tolerance (a seed is accepted if the largest shard is within 1 % of the
-//!   average: 1.125 * 0.01 * m <= seg for every shard size in that regime).
+//!   average, so a shard of average size m may take 1.125 * 1.01 * m cells,
+//!   i.e. 0.00125 * m <= 125 cells more than 1.135 * m — less than one
+//!   512-cell segment for every shard size of that regime).
 //!   The `+ 16` cells pay for the three-segment minimum on 0..2 keys and the
 //!   inner ceiling.
 use mem_dbg::{MemSize, SizeFlags};
